@@ -180,7 +180,9 @@ impl<'a, Alloc: alloc::Allocator<u16> + alloc::Allocator<u32> + alloc::Allocator
     pub fn choose_stride(&self, stride_data: &mut [u8]) {
         assert_eq!(stride_data.len(), self.cur_score_epoch);
         assert!(self.score.slice().len() > stride_data.len());
-        assert!(self.score.slice().len() > (stride_data.len() << 3) + 7 + 8);
+        // block type `index` reads score[(1 + index) * 8..][..8]; update_block_type keeps
+        // cur_score_epoch * 8 + 7 inside the allocation, which is exactly that much
+        assert!(self.score.slice().len() > (stride_data.len() << 3) + 7);
         for (index, choice) in stride_data.iter_mut().enumerate() {
             let choices = self
                 .score
